@@ -23,10 +23,13 @@ REQUIRED = {t: [f"codec:{c}._write" for c in _classes] + [f"codec:{c}._build" fo
 
 
 def plan(tier, seed):
-    return plan_codec(tier, seed, ["C02"], shapes=True)
+    return plan_codec(tier, seed, ["C02"], shapes=True, extra=[{"kind": "repo-tests"}])
 
 
 def run_shard(desc, rec):
+    if desc["kind"] == "repo-tests":
+        from ..drivers import repotests
+        return repotests.run_shard(desc, rec)
     codec.run_shard(desc, rec)
 
 
